@@ -16,7 +16,7 @@ import (
 
 // plOracle tracks, per key, the value at the last completed Sync and the values written since.
 type plOracle struct {
-	synced map[string][]byte            // contents as of the last completed Sync
+	synced map[string][]byte          // contents as of the last completed Sync
 	later  map[string]map[string]bool // per key: acceptable later states ("P"+value or "D")
 }
 
@@ -77,7 +77,12 @@ func (o *plOracle) check(got map[string][]byte, universe [][]byte) string {
 }
 
 // readAll opens the image in a fresh interpreter and returns the contents.
-func readAll(img map[string][]byte, dir string, params string) (map[string][]byte, string) {
+func readAll(img map[string][]byte, dir string, params string) (resMap map[string][]byte, errs string) {
+	defer func() {
+		if rec := recover(); rec != nil {
+			resMap, errs = nil, fmt.Sprint("panic while reading the reopened database: ", rec)
+		}
+	}()
 	im := interp.New()
 	im.FS = tfs.FromImage(img)
 	im.Dir = dir
@@ -186,6 +191,12 @@ func genPowerLoss(prop string) func(r *rng, tier string, res *Result) {
 			g.params([]int{600, 700, 1100, 2048}[g.r.intn(4)], 512, []float32{0.0001, 0.1, 0.4}[g.r.intn(3)], syncMode)
 			g.open()
 			g.keys = g.randomKeys(8)
+			if i%4 == 1 {
+				// many live records per segment: compaction promotes several records, and the
+				// destination segment can roll over in the middle of the promotion
+				g.keys = g.randomKeys(40)
+				g.c.tag("many_live_records")
+			}
 			o := newPLOracle()
 			type inst struct {
 				n      int
@@ -205,6 +216,13 @@ func genPowerLoss(prop string) func(r *rng, tier string, res *Result) {
 					} else {
 						g.sync()
 					}
+				}
+				if i%3 == 1 {
+					// a session that changes the index through compaction only
+					g.close()
+					g.open()
+					g.compact()
+					g.c.tag("compaction_only_session")
 				}
 				g.close()
 				o.syncedNow(g.ref)
